@@ -157,6 +157,28 @@ def main(argv=None):
         if still:
             kf_lines.append("KNOWN-FINDING: property=%s %s: %s" % (prop_id, kid, entry["what"]))
 
+    # 1b. replay tier: saved inputs of past failures (plain regression checks that bypass Hypothesis)
+    import glob
+    from .core import Violation, HarnessError, replay
+    regress_failed = []
+    n_regress = 0
+    for path in sorted(glob.glob(os.path.join(HERE, "regress", prop_id + "-*.json"))):
+        with open(path) as f:
+            rep = json.load(f)
+        n_regress += 1
+        try:
+            rctx = Ctx(prop_id, a.tier, known)
+            if rep.get("custom"):
+                prop.replay_custom(rctx, rep)
+            else:
+                replay(prop, rctx, rep["config"], rep["ops"])
+        except Violation as v:
+            regress_failed.append((path, v))
+        except HarnessError:
+            traceback.print_exc()
+            print("HARNESS-ERROR: regression replay %s" % path)
+            return 2
+
     # 2. generated search, sharded
     jobs = [(prop_id, a.tier, seed, i, a.shards, cases, steps, a.shrink or a.tier == "thorough") for i in range(a.shards)]
     if a.shards == 1:
@@ -226,10 +248,11 @@ def main(argv=None):
             "cases_per_shard": cases,
             "steps_per_case": steps,
             "skipped_ops": skipped,
+            "regression_replays": n_regress,
         },
         "assumptions": list(prop.ASSUMPTIONS),
         "wall_s": round(wall, 2),
-        "violations": len(violations),
+        "violations": len(violations) + len(regress_failed),
     }
     ev["coverage"].update(extra)
     if getattr(prop, "EXHAUSTIVE_KEYS", None):
@@ -243,6 +266,11 @@ def main(argv=None):
 
     print("%s tier=%s seed=%d: %d cases (%d distinct non-trivial), %.1fs, violations=%d" % (
         prop_id, a.tier, seed, evaluations, len(nontrivial), wall, len(violations)))
+    for path, v in regress_failed:
+        print("clause: %s\ndetail: %s" % (v.clause, str(v.detail)[:1500]))
+        print("VIOLATION property=%s replay=%s" % (prop_id, os.path.relpath(path, HERE)))
+    if regress_failed and not violations:
+        return 1
     if violations:
         violations.sort(key=lambda r: (len(r.get("ops") or []), r["shard"]))
         seen_clauses = set()
